@@ -799,6 +799,38 @@ pub fn ladder(kind: &str, levels: u64) -> Planted {
     Planted { frag: "ladder", desc: format!("ladder[{} levels={}]", kind, levels), bytes: build_doc(&objs, "/Root 1 0 R") }
 }
 
+/// **Shared sub-structure reached through every typed struct that has more than one followed entry** (the
+/// /DescendantFonts ladder is `ladder("fonts", _)`): `a` entries of /Annots that are the same annotation, whose
+/// /AP /N is a dictionary of `f` states that are the same dictionary of `f` states that are the same form, whose
+/// /Resources has `m` colour spaces that are the same chain of `l` ICC-based spaces (each the /Alternate of the one
+/// before). The file has a + 2f + m + 2l + 8 short objects or entries; a loader that does not remember what it
+/// loaded does a·f²·m·l loads (no typed struct of the schema has two followed entries on a *recursive* path, so
+/// there is no 2^n ladder other than the repaired /DescendantFonts one; the product of independent fan-outs is what
+/// the schema allows).
+pub fn fanout(a: usize, f: usize, m: usize, l: usize) -> Planted {
+    let mut objs: Vec<(u64, Vec<u8>)> = vec![
+        (1, b"<< /Type /Catalog /Pages 2 0 R >>".to_vec()),
+        (2, b"<< /Type /Pages /Kids [3 0 R] /Count 1 /MediaBox [0 0 10 10] >>".to_vec()),
+    ];
+    let rep = |n: usize, id: u64| (0..n).map(|_| rf(id)).collect::<Vec<_>>().join(" ");
+    let states = |n: usize, id: u64| (0..n).map(|i| format!("/s{} {}", i, rf(id))).collect::<Vec<_>>().join(" ");
+    objs.push((3, format!("<< /Type /Page /Parent 2 0 R /Resources 8 0 R /Annots [{}] >>", rep(a, 4)).into_bytes()));
+    objs.push((4, b"<< /Type /Annot /Subtype /Widget /Rect [0 0 1 1] /P 3 0 R /AP << /N 5 0 R /D 5 0 R /R 5 0 R >> >>".to_vec()));
+    objs.push((5, format!("<< {} >>", states(f, 6)).into_bytes()));
+    objs.push((6, format!("<< {} >>", states(f, 7)).into_bytes()));
+    let form = b"<< /Type /XObject /Subtype /Form /BBox [0 0 1 1] /Resources 8 0 R /Length 3 >>\nstream\nq Q\nendstream".to_vec();
+    objs.push((7, form));
+    objs.push((8, format!("<< /ColorSpace << {} >> >>", states(m, 10)).into_bytes()));
+    for i in 0..l as u64 {
+        let arr = 10 + 2 * i;
+        objs.push((arr, format!("[/ICCBased {}]", rf(arr + 1)).into_bytes()));
+        let alt = if i + 1 == l as u64 { "/DeviceRGB".to_string() } else { rf(arr + 2) };
+        objs.push((arr + 1, format!("<< /N 3 /Alternate {} /Length 1 >>\nstream\nx\nendstream", alt).into_bytes()));
+    }
+    objs.sort_by_key(|o| o.0);
+    Planted { frag: "fanout", desc: format!("fanout[a={} f={} m={} l={}]", a, f, m, l), bytes: build_doc(&objs, "/Root 1 0 R") }
+}
+
 /// a chain of `n` nested eager loads entered through a low object number: page-tree /Parent links or
 /// composite fonts (nesting beyond any supported depth)
 pub fn deep_chain(kind: &str, n: u64) -> Planted {
